@@ -131,6 +131,9 @@ func runRebuildCase(c caseDef) caseResult {
 	dnsZeroed := dnsZeroTracker{}
 	var known []string
 	knownAfter := 0
+	// recorded finding 8 (see converge.go): active from a step that creates / deletes the Service exported to nobody
+	// while a provider backed by it is in use, until the Service changes again
+	nobodyActive := false
 	compare := func(after int) *caseResult {
 		attempt := func() []string {
 			ps1 := env.PushContext()
@@ -143,6 +146,13 @@ func runRebuildCase(c caseDef) caseResult {
 					if bv, ok := b[k]; !ok {
 						bad = append(bad, k+":extra"+tag)
 					} else if bv != v {
+						if f := strings.SplitN(k, "/", 3); nobodyActive && len(f) == 3 && f[1] == "LDS" &&
+							stripMentions(v, nobodyProviderHost) == stripMentions(bv, nobodyProviderHost) {
+							if len(known) < 6 {
+								known, knownAfter = append(known, k+":"+kindProviderNobody), after
+							}
+							continue
+						}
 						bad = append(bad, k+":stale"+tag+" "+firstDifference(v, bv))
 					}
 				}
@@ -219,6 +229,15 @@ func runRebuildCase(c caseDef) caseResult {
 			return caseResult{Verdict: fmt.Sprintf("FAIL apply-error step=%d %s", i+1, wire.Enc(err.Error()))}
 		}
 		dnsZeroed.step(s, w)
+		if s.ID == "k-svc" {
+			aw := w.clone()
+			if s.Op == "delete" {
+				delete(aw, s.ID)
+			} else {
+				aw[s.ID] = s.Variant
+			}
+			nobodyActive = nobodyTrigger(w, aw) && usesKsvcProvider(aw)
+		}
 		if s.Op == "delete" {
 			delete(w, s.ID)
 		} else {
@@ -259,7 +278,9 @@ func genRebuild(seed uint64, n int, out string) {
 	for _, d := range gwapiUniverse {
 		objs = append(objs, obj{d.ID, len(d.Variants)})
 	}
-	objs = append(objs, obj{meshID, len(meshVariants)})
+	for _, x := range pseudoObjs {
+		objs = append(objs, obj{x.id, x.n})
+	}
 	// n = total number of steps, spread over walks of at most 60 steps (a replay stays short)
 	walk := 0
 	for left := n; left > 0; walk++ {
